@@ -24,6 +24,8 @@ for PID in "$@"; do
   RES="$RES $PID:rc=$RC"
 done
 cd /repo && git reset -q --hard HEAD && git status --short | head -3
+# evidence written while the change was applied must not stay in /verif/evidence
+git -C /verif checkout -q -- evidence 2>/dev/null
 python3 - "$WT/mutant/meta$K.json" "$OUT/meta.json" "$T" "$DW" "$DN" "$RES" <<'PY'
 import json,sys
 src,dst,t,dw,dn,res=sys.argv[1:7]
